@@ -82,3 +82,53 @@ package vuego
 //@   loop 2 invariant C12.loop.prefix: hasPrefix(out(w), old(out(w))) && failed(w) == old(failed(w))
 //@   loop 3 invariant C12.loop.prefix: hasPrefix(out(w), old(out(w))) && failed(w) == old(failed(w))
 //@   loop 4 invariant C12.loop.prefix: hasPrefix(out(w), old(out(w))) && failed(w) == old(failed(w))
+
+// ---- variable stack (C17) ----
+
+//@ spec func rootHas(root Val, name string) bool
+//@ spec func rootGet(root Val, name string) Val
+
+//@ spec func lookupIdx(s *Stack, name string, i int) int decreases i + 1 {
+//@   i < 0 ? 0 - 1 : ((name in s.stack[i]) ? i : lookupIdx(s, name, i - 1)) }
+
+//@ invariant (s *Stack) C17.pool.len: len(s.pooled) == len(s.stack)
+//@ invariant (s *Stack) C10+C17.pool.inv: forall i int :: 0 <= i && i < len(s.pooled) && i < len(s.stack) && s.pooled[i] ==> fromPool(s.stack[i])
+
+//@ func (s *Stack) Lookup(name) (v, ok)
+//@   pure
+//@   ensures C17.innermost: lookupIdx(s, name, len(s.stack) - 1) >= 0 ==>
+//@     ok && v == s.stack[lookupIdx(s, name, len(s.stack) - 1)][name]
+//@   ensures C17.rootfallback: lookupIdx(s, name, len(s.stack) - 1) < 0 ==>
+//@     (ok == (s.rootData != nil && rootHas(s.rootData, name))) && (ok ==> v == rootGet(s.rootData, name)) && (!ok ==> v == nil)
+//@   loop 0 invariant C17.scan: 0 - 1 <= i && i < len(s.stack) && lookupIdx(s, name, len(s.stack) - 1) == lookupIdx(s, name, i)
+
+//@ func (s *Stack) Set(key, val)
+//@   modifies s.stack, s.pooled, contents(s.stack[len(s.stack) - 1])
+//@   ensures C17.set.top: len(s.stack) >= 1 && forall k string ::
+//@     ((k in s.stack[len(s.stack) - 1]) == (k == key || (old(len(s.stack)) >= 1 && old(k in s.stack[len(s.stack) - 1])))) &&
+//@     (k == key ==> s.stack[len(s.stack) - 1][k] == val) &&
+//@     (k != key && old(len(s.stack)) >= 1 ==> s.stack[len(s.stack) - 1][k] == old(s.stack[len(s.stack) - 1][k]))
+//@   ensures C17.set.only: old(len(s.stack)) >= 1 ==> len(s.stack) == old(len(s.stack)) &&
+//@     forall i int :: 0 <= i && i < len(s.stack) ==> s.stack[i] == old(s.stack[i])
+
+//@ func (s *Stack) Push(m)
+//@   modifies s.stack, s.pooled
+//@   ensures C17.push: len(s.stack) == old(len(s.stack)) + 1 &&
+//@     forall i int :: 0 <= i && i < old(len(s.stack)) ==> s.stack[i] == old(s.stack[i])
+//@   ensures C17.push.top: m != nil ==> s.stack[len(s.stack) - 1] == m
+//@   ensures C17.push.nil: m == nil ==> s.stack[len(s.stack) - 1] != nil
+
+//@ func (s *Stack) Pop()
+//@   modifies s.stack, s.pooled, contents(s.stack[len(s.stack) - 1])
+//@   ensures C17.pop: old(len(s.stack)) > 1 ==> len(s.stack) == old(len(s.stack)) - 1 &&
+//@     forall i int :: 0 <= i && i < len(s.stack) ==> s.stack[i] == old(s.stack[i])
+//@   ensures C17.wf: len(s.stack) >= 1 || old(len(s.stack)) == 0
+//@   loop 0 invariant C10.pool.cleared: forall k string :: visited(k) ==> !(k in topMap)
+//@   loop 0 invariant C17.pop.frame: len(s.stack) == old(len(s.stack)) && topIdx == len(s.stack) - 1 && topMap == s.stack[topIdx] && topIdx >= 0 && len(s.pooled) == len(s.stack)
+//@   ensures C17.pop.last: old(len(s.stack)) == 1 ==> len(s.stack) == 1 && fresh(s.stack[0]) && forall k string :: !(k in s.stack[0])
+
+//@ func NewStackWithData(root, originalData) (s)
+//@   ensures C17.new: fresh(s) && len(s.stack) == 1 && s.rootData == originalData && (root != nil ==> s.stack[0] == root)
+//@   ensures C17.pool.len.new: len(s.pooled) == len(s.stack)
+//@   ensures C10+C17.pool.inv.new: forall i int :: 0 <= i && i < len(s.pooled) && i < len(s.stack) && s.pooled[i] ==> fromPool(s.stack[i])
+//@   ensures C17.new.nil: root == nil ==> fresh(s.stack[0]) && forall k string :: !(k in s.stack[0])
